@@ -73,7 +73,7 @@ def poly_models(tier):
     out += [("HyperSpherical", 0, 1), ("HyperSpherical", 0, 3)]
     for nu in (0, 1, 2, 3):
         out += [("SuperSpherical", nu, d) for d in (1, 2, 3) if 2 * nu >= d - 1]
-    for al in (1, 2, 3) + ((4,) if big else ()):
+    for al in (1, 2, 3):  # alpha = 4 overflows 32 bit on lags k/8 (481^4)
         out += [("Rational", al, d) for d in (1, 2, 3)]
     out += [("UserLin", 0, 0), ("UserRat", 0, 0)]
     return out
@@ -109,7 +109,7 @@ def mc_text(tier, rng):
     big = tier == "thorough"
     kmax = 16 if big else 12
     models = poly_models(tier)
-    sy = spatial_vectors(rng, kmax, 8 if big else 3)
+    sy = spatial_vectors(rng, kmax, 5 if big else 3)
     intvals = [(1, 2), (1, 1), (3, 1)] + ([(2, 1)] if big else [])
     defs = {
         "Models": "{" + ", ".join('[name |-> "%s", opt |-> %d, dim |-> %d]' % m for m in models) + "}",
@@ -408,6 +408,7 @@ def check_table(col, m, mspec, tab, keyfmt, who):
     ks = sorted(tab)
     r = np.array([tab[k]["r"] for k in ks])
     h = np.array([tab[k]["h"] for k in ks])
+    failed = 0
     with warnings.catch_warnings():
         warnings.simplefilter("ignore")
         for fn in FNS:
@@ -418,16 +419,19 @@ def check_table(col, m, mspec, tab, keyfmt, who):
             except RecursionError:
                 col.violation(keyfmt % ("cycle", fn), "%s: evaluating %s never terminates (cyclic delegation)" % (who, fn),
                               {"model": mspec, "call": {"method": fn, "args": [x.tolist()]}})
+                failed += 1
                 continue
             bad = differs(got, exp)
             col.evals += len(ks)
             if bad.any():
+                failed += 1
                 i = int(np.flatnonzero(bad)[0])
                 col.violation(keyfmt % ("value", fn),
                               "%s: %s(%r) = %r but the documented closed form is exactly %r (TLC), k = %d"
                               % (who, fn, float(x[i]), float(got.flat[i]) if got.size > i else None, float(exp[i]), ks[i]),
                               {"model": mspec, "call": {"method": fn, "args": [x.tolist()]}, "index": i,
                                "observed": got.tolist(), "expected": exp.tolist()})
+    return failed
 
 
 def pick_groups(groups, dim, rng, nspatial):
@@ -512,22 +516,23 @@ def task_user(job):
                     col.drift_msg("user class {%s}: own definition of %s was replaced" % (sig, f))
             if any(":cycle:" in k for k, _w, _r in col.violations):
                 return col.result()
-        nv = len(col.violations)
-        check_table(col, m, mspec, tab, "userclass:" + sig + ":%s:%s", who)
+        failed = check_table(col, m, mspec, tab, "userclass:" + sig + ":%s:%s", who)
         col.cases += 1
         col.keys += 1
-        if len(col.violations) > nv:
+        if pi == 0 and len(D) == 1:
+            col.samples.append({"user class defines": list(D), "form": form, "kwargs": base,
+                                "grounded": {f: ginfo[f][0] for f in FNS},
+                                "variogram(r_k) checked against TLC": [tab[k]["variogram"] for k in sorted(tab)][:6]})
+        if failed:
             continue  # the variants of a wrong function are wrong as well: one root cause, one report
+        if G["tier"] == "quick" and (p["var"] + p["nug"] + p["res"] + p["le"]) % 2:
+            continue  # quick: variants on the even-parity half of the lattice (all pairs of values occur)
         cache = {}
         L = base["len_scale"]
         for g in pick_groups(G["groups"], dim, rng, G["nspatial_value"]):
             gm, full = configured(cls, base, g, L, cache)
             check_group(col, gm, {"user": {"D": list(D), "form": form}, "kwargs": full}, g, L, base["var"],
                         base["nugget"], "userclass:" + sig + ":%s:%s", table=tab, relation=True)
-        if pi == 0 and len(D) == 1:
-            col.samples.append({"user class defines": list(D), "form": form, "kwargs": base,
-                                "grounded": {f: ginfo[f][0] for f in FNS},
-                                "variogram(r_k) checked against TLC": [tab[k]["variogram"] for k in sorted(tab)][:6]})
     return col.result()
 
 
@@ -555,23 +560,24 @@ def task_poly(job):
             col.violation("closedform:%s:construct" % real, "%s(%s) cannot be constructed: %r" % (real, base, e), mspec)
             return col.result()
         who = "%s(%s)" % (real, ", ".join("%s=%r" % kv for kv in base.items()))
-        nv = len(col.violations)
-        check_table(col, m, mspec, tab, "closedform:" + real + ":%s:%s", who)
+        failed = check_table(col, m, mspec, tab, "closedform:" + real + ":%s:%s", who)
         col.cases += 1
         col.keys += 1
-        if len(col.violations) > nv:
+        if pi == 0 and dim in (1, 3):
+            ks = sorted(tab)
+            col.samples.append({"class": real, "kwargs": base, "lags": [tab[k]["r"] for k in ks][6:10],
+                                "correlation exact (TLC)": ["%d/%d" % tuple(G["polyraw"][mkey][0][k]["correlation"]) for k in ks][6:10],
+                                "correlation observed": np.asarray(m.correlation(np.array([tab[k]["r"] for k in ks]))).tolist()[6:10]})
+        if failed:
             continue  # the variants of a wrong function are wrong as well: one root cause, one report
+        if G["tier"] == "quick" and (p["var"] + p["nug"] + p["res"] + p["le"]) % 2:
+            continue  # quick: variants on the even-parity half of the lattice (all pairs of values occur)
         cache = {}
         L = base["len_scale"]
         for g in pick_groups(G["groups"], dim, rng, G["nspatial_value"]):
             gm, full = configured(cls, base, g, L, cache)
             check_group(col, gm, {"class": real, "kwargs": full}, g, L, base["var"], base["nugget"],
                         "closedform:" + real + ":%s:%s", table=tab, relation=False)
-        if pi == 0 and dim in (1, 3):
-            ks = sorted(tab)
-            col.samples.append({"class": real, "kwargs": base, "lags": [tab[k]["r"] for k in ks][6:10],
-                                "correlation exact (TLC)": ["%d/%d" % tuple(G["polyraw"][mkey][0][k]["correlation"]) for k in ks][6:10],
-                                "correlation observed": np.asarray(m.correlation(np.array([tab[k]["r"] for k in ks]))).tolist()[6:10]})
     return col.result()
 
 
@@ -626,7 +632,7 @@ def task_relation(job):
     used = 0
     for dim in (1, 2, 3):
         for oi, opt in enumerate(class_variants(name, dim, big)):
-            n_par = 3 if big else 1
+            n_par = 2 if big else 1
             for base0 in lattice[used:used + n_par] if used + n_par <= len(lattice) else lattice[:n_par]:
                 base = {k: v for k, v in base0.items() if v is not None}
                 base.update(opt)
@@ -641,8 +647,8 @@ def task_relation(job):
                 except Exception as e:  # noqa: BLE001
                     col.violation("identity:%s:construct" % name, "%s(%s) cannot be constructed: %r" % (name, full0, e), mspec)
                     continue
-                # the three identities of the property on the lag grid (and a negative lag)
-                r = np.arange(0, kmax + 1) / 8.0 * L
+                # the three identities of the property on the lag grid and in the far tail
+                r = np.concatenate([np.arange(0, kmax + 1) / 8.0 * L, np.array([2.0, 4.0, 8.0, 16.0, 64.0, 256.0]) * L])
                 with warnings.catch_warnings():
                     warnings.simplefilter("ignore")
                     v = np.asarray(m.variogram(r), dtype=float)
@@ -663,8 +669,7 @@ def task_relation(job):
                                       {"model": mspec, "identity": what, "lags": r.tolist(), "lhs": a.tolist(), "rhs": b.tolist()})
                 col.cases += 1
                 cache = {}
-                nsp = None if big else G["nspatial_rel"]
-                groups = pick_groups(G["groups"], dim, rng, nsp)
+                groups = pick_groups(G["groups"], dim, rng, G["nspatial_rel"])
                 for g in groups:
                     gm, full = configured(cls, base, g, L, cache)
                     check_group(col, gm, {"class": name, "kwargs": full}, g, L, var, nug,
@@ -741,7 +746,9 @@ def task_int(job):
     col = Collect()
     cls = getattr(gs, name)
     opts = INT_CLASSES[name]
-    for si in range(lo, hi):
+    stride = 1 if _G["tier"] == "thorough" else 2      # quick: every state on every second class
+    off = sorted(INT_CLASSES).index(name) % stride
+    for si in range(lo + (lo + off) % stride, hi, stride):
         st = _G["int"][si]
         opt = opts[si % len(opts)]
         rescale = (None, 2.0, 0.5)[(si // len(opts)) % 3]
@@ -763,7 +770,7 @@ def task_int(job):
                               % (name, kw, val if not isinstance(val, np.ndarray) else val.tolist(), st["form"], k, obs[k], exp[k]),
                               {"class": name, "state": _pubst(st), "opt": opt, "rescale": rescale, "toggle": si % 2,
                                "expected": exp, "observed": obs})
-        if si == lo + 7 and not col.samples:
+        if si >= lo + 7 and not col.samples:
             col.samples.append({"class": name, "kwargs": kw, "form": st["form"],
                                 "integral_scale assigned": val.tolist() if isinstance(val, np.ndarray) else val,
                                 "expected (TLC)": {k: exp[k] for k in ("integral_scale", "anis", "integral_scale_vec")},
@@ -773,6 +780,10 @@ def task_int(job):
 
 def _pubst(st):
     return json.loads(json.dumps(st, default=list))
+
+
+def _jsonable_sample(o):
+    return json.loads(json.dumps(o, default=lambda x: x.tolist() if hasattr(x, "tolist") else repr(x)))
 
 
 def _dispatch(job):
@@ -794,7 +805,7 @@ def aux_numeric(rep):
     """Clearly auxiliary numeric cross-checks (quadrature / root finding); never a VIOLATION."""
     import gstools as gs
 
-    out = {"integral_scale_by_quadrature": [], "percentile_scale": []}
+    out = {"integral_scale_by_quadrature": [], "closed_form_integral_scale_vs_quadrature": [], "percentile_scale": []}
     with warnings.catch_warnings():
         warnings.simplefilter("ignore")
         for name, kw in (("Linear", dict(dim=1)), ("Spherical", dict(dim=3)), ("Cubic", dict(dim=3)),
@@ -805,6 +816,14 @@ def aux_numeric(rep):
                 out["integral_scale_by_quadrature"].append({"class": name, "assigned": 1.5, "reported": float(m.integral_scale)})
             except Exception as e:  # noqa: BLE001
                 out["integral_scale_by_quadrature"].append({"class": name, "assigned": 1.5, "error": repr(e)})
+        for name, opts in INT_CLASSES.items():
+            try:
+                m = getattr(gs, name)(dim=2, len_scale=2.0, **opts[-1])
+                out["closed_form_integral_scale_vs_quadrature"].append(
+                    {"class": name, "opt": opts[-1], "closed_form": float(m.integral_scale),
+                     "quadrature": float(gs.CovModel.calc_integral_scale(m))})
+            except Exception as e:  # noqa: BLE001
+                out["closed_form_integral_scale_vs_quadrature"].append({"class": name, "error": repr(e)})
         for name, kw in (("Exponential", {}), ("Gaussian", {}), ("Spherical", {}), ("Matern", {"nu": 1.5}), ("Rational", {"alpha": 2.0})):
             try:
                 m = getattr(gs, name)(dim=2, var=2.0, nugget=1.0, len_scale=2.0, **kw)
@@ -935,7 +954,7 @@ def run(pid, tier, seed, replay=None):
     ints = sorted((st["isc"] for st in istates), key=lambda s: tlaval.to_tla(s))
     rng.shuffle(ints)
     _G.update(tier=tier, kmax=kmax, ground=ground, poly=poly, polyraw=polyraw, groups=groups, int=ints,
-              nspatial_value=None if big else 6, nspatial_rel=150)
+              nspatial_value=40 if big else 6, nspatial_rel=1200 if big else 150)
     work = []
     for D in sorted(verdict, key=lambda s: (len(s), sorted(s))):
         for form in USER_FORMS:
@@ -969,9 +988,10 @@ def run(pid, tier, seed, replay=None):
             for msg in res["drift"]:
                 rep.drift_msg(msg)
             for s in res["samples"]:
-                cap = {"user": 2, "poly": 2, "relation": 2, "int": 1}[kind]
-                if sum(1 for x in rep.samples if x.get("part") == kind) < cap:
-                    rep.sample(dict(s, part=kind), cap=12)
+                cap = {"user": 3, "poly": 2, "relation": 2, "int": 1}[kind]
+                s = _jsonable_sample(dict(s, part=kind))
+                if s not in rep.samples and sum(1 for x in rep.samples if x.get("part") == kind) < cap:
+                    rep.sample(s, cap=12)
     print("replay: %d tasks in %.1fs: %s" % (len(work), time.time() - t0, per_kind))
     base = 0
     for kind in sorted(per_kind):
